@@ -254,3 +254,15 @@ def run(ctx):
     f = P.fn("bytestream_bsend")
     resume_rule(P, eng, r6, f)
     r6.floor(1, "resuming loops")
+    # the offset grows only by what was accepted: never by the -1 of a refused attempt
+    fb = B.FnBounds(eng, f)
+    acc = [(e, lhs, rhs) for b, i, e, lhs, rhs, op in f.stores() if op == "+=" and f.sn(lhs)["k"] == "ref"]
+    if not acc:
+        raise Broken("C02.R6: accumulator of bytestream_bsend not found")
+    for e, lhs, rhs in acc:
+        v = fb.lin(rhs)
+        if v is not None and fb.prove_le(fb.before.get(e, B.Facts()), B.lin_const(0), v):
+            r6.ok("bytestream_bsend: the offset advances by %s only when it is >= 0" % f.show(rhs), "path facts")
+        else:
+            r6.violation("bytestream_bsend:negative-accumulate", "the offset is advanced by %s, which may be the -1 of a refused attempt: bytes already sent are sent again and the "
+                         "stream shifts" % f.show(rhs), loc=f.loc(e))
